@@ -12,6 +12,7 @@
 From stdpp Require Import gmap list.
 From Coq Require Import ZArith.
 From KT Require Import Lifecycle LInv LProps LIdle AlgoIdle HB G3 GR Space Discover Rand Tuner TunerTerm.
+From KT Require BayesSym.
 
 Theorem C11_idle_only_if_busy : ∀ (A V Sc : Type) (vdef : V) (populate : A → list (trial V Sc) → bool → tid → A * status * V) (reissue : V → V)
     c (s : @ostate A V Sc) tu s' id v,
@@ -23,6 +24,21 @@ Theorem C11_grid_idle : ∀ sp, idle_only_if_busy (gpopulate sp).
 Proof. exact gpopulate_idle. Qed.
 Theorem C11_random_idle : ∀ samp draw mc, idle_only_if_busy (rpopulate samp draw mc).
 Proof. exact rpopulate_idle. Qed.
+
+(* the Bayesian oracle (glue modelled in BayesSym.v, numerical machinery uninterpreted): never IDLE by itself as long as its
+   warm-up sampler (_random_populate_space: RUNNING or STOPPED) is not; its own STOPPED is that sampler giving up during warm-up *)
+Theorem C11_bayes_idle : ∀ (V Sc R GP RS Vec : Type) (neg : Sc → Sc) (vecof : R → V → Vec) (veclen : Vec → nat) (nfeat : GP → option nat)
+    (pess : GP → Vec → scored Sc) (fit : list (Vec * scored Sc) → GP) (optimize : GP → RS → Vec * RS) (v2v : R → Vec → V) (nip : R → nat)
+    (rpop : R → tid → R * status * V) (mx : bool),
+  (∀ r id, snd (fst (rpop r id)) ≠ IDLE) →
+  idle_only_if_busy (BayesSym.bpopulate neg vecof veclen nfeat pess fit optimize v2v nip rpop mx).
+Proof. exact @BayesSym.bpopulate_idle. Qed.
+Theorem C11_bayes_stopped : ∀ (V Sc R GP RS Vec : Type) (neg : Sc → Sc) (vecof : R → V → Vec) (veclen : Vec → nat) (nfeat : GP → option nat)
+    (pess : GP → Vec → scored Sc) (fit : list (Vec * scored Sc) → GP) (optimize : GP → RS → Vec * RS) (v2v : R → Vec → V) (nip : R → nat)
+    (rpop : R → tid → R * status * V) (mx : bool) (a : BayesSym.bstate) (ts : list (trial V Sc)) (busy : bool) (id : tid),
+  snd (fst (BayesSym.bpopulate neg vecof veclen nfeat pess fit optimize v2v nip rpop mx a ts busy id)) = STOPPED →
+  let '(r, _, _) := a in BayesSym.ncompleted ts < nip r ∧ snd (fst (rpop r id)) = STOPPED.
+Proof. exact @BayesSym.bpopulate_stopped. Qed.
 
 Theorem C11_runs_bounded_step : ∀ (A V Sc : Type) (vdef : V) (score_fn : V → scored Sc) (populate : A → list (trial V Sc) → bool → tid → A * status * V)
     (hook_end hook_end_abort : A → tid → V → A) (hook_reload : A → A) (reissue : V → V) c (s : @ostate A V Sc) o,
@@ -58,6 +74,8 @@ Proof. exact rpopulate_stopped. Qed.
 
 Print Assumptions C11_idle_only_if_busy.
 Print Assumptions C11_hyperband_idle.
+Print Assumptions C11_bayes_idle.
+Print Assumptions C11_bayes_stopped.
 Print Assumptions C11_runs_bounded_step.
 Print Assumptions C11_search_terminates.
 Print Assumptions C11_stopped_reason.
